@@ -16,6 +16,8 @@ pub enum Kind {
     EncLzma2,
     /// LZMAWriter
     EncLzma1,
+    /// LZMA2Writer with a chunk size of `unit_pct` percent of the input (>= 2 independent units)
+    EncLzma2Units { unit_pct: u8 },
     DecLzma1,
     DecLzma2,
     /// .lzma header x memory limit around the need: 0 = need-1, 1 = need, 2 = need+1, 3 = 0, 4 = u32::MAX
@@ -92,7 +94,7 @@ impl Property for C17 {
     fn strategy(tier: Tier, family: u32) -> BoxedStrategy<Case> {
         let inst_max = tier.pick(16u32 << 20, 128 << 20);
         let kind = match family {
-            0 => Just(Kind::EncLzma2).boxed(),
+            0 => prop_oneof![3 => Just(Kind::EncLzma2), 1 => (5u8..60).prop_map(|unit_pct| Kind::EncLzma2Units { unit_pct })].boxed(),
             1 => Just(Kind::EncLzma1).boxed(),
             2 => prop_oneof![Just(Kind::DecLzma1), Just(Kind::DecLzma2)].boxed(),
             3 => prop_oneof![
@@ -122,7 +124,10 @@ impl Property for C17 {
         (opts_strategy(1 << 20, false), dict, kind, any::<u64>())
             .prop_map(|(mut opts, d, kind, seed)| {
                 opts.dict_size = d;
-                if matches!(kind, Kind::EncLzma2 | Kind::DecLzma2) && opts.lc + opts.lp > 4 {
+                if matches!(kind, Kind::EncLzma2Units { .. }) {
+                    opts.dict_size = opts.dict_size.min(1 << 20);
+                }
+                if matches!(kind, Kind::EncLzma2 | Kind::EncLzma2Units { .. } | Kind::DecLzma2) && opts.lc + opts.lp > 4 {
                     opts.lc = 3;
                     opts.lp = 0;
                 }
@@ -150,6 +155,14 @@ impl Property for C17 {
         ]
     }
 
+    fn known(case: &Case, f: &Failure) -> Option<&'static str> {
+        // two encoders are alive while LZMA2Writer starts a new independent unit
+        if matches!(case.kind, Kind::EncLzma2Units { .. }) && f.sig == "encoder-estimate-unsound" && f.detail.contains("within twice the estimate") {
+            return Some("KF-LZMA2-UNIT-DOUBLE-ENCODER");
+        }
+        None
+    }
+
     fn run(case: &Case, obs: &mut Obs) -> Outcome {
         let o = &case.opts;
         obs.nontrivial = true;
@@ -157,12 +170,19 @@ impl Property for C17 {
         obs.class_if(o.dict_size >= (4 << 20), "big_dict");
         let lz = o.to_lzma();
         match &case.kind {
-            Kind::EncLzma2 | Kind::EncLzma1 => {
+            Kind::EncLzma2 | Kind::EncLzma1 | Kind::EncLzma2Units { .. } => {
                 obs.class("encoder");
-                let lzma2 = matches!(case.kind, Kind::EncLzma2);
+                let lzma2 = !matches!(case.kind, Kind::EncLzma1);
+                let unit_pct = if let Kind::EncLzma2Units { unit_pct } = case.kind { Some(unit_pct as u64) } else { None };
+                obs.class_if(unit_pct.is_some(), "encoder_units");
                 let est = no_panic("estimate", || lz.get_memory_usage())?;
                 // input prepared before the measurement
-                let n = ((o.dict_size as usize * 3 / 2).min(1 << 20)).max(1000);
+                let n = if unit_pct.is_some() {
+                    // several units of one dictionary size each (the dictionary of this kind is at most 1 MiB)
+                    (o.dict_size as usize * 4).max(300_000)
+                } else {
+                    ((o.dict_size as usize * 3 / 2).min(1 << 20)).max(1000)
+                };
                 let data = Data {
                     segs: vec![Seg::Mixed { len: n as u32, seed: case.seed }],
                 }
@@ -172,8 +192,18 @@ impl Property for C17 {
                 let before = crate::alloc::live();
                 let r = no_panic("encode", move || -> std::io::Result<()> {
                     if lzma2 {
-                        let mut w = LZMA2Writer::new(Sink, LZMA2Options { lzma_options: lz2, chunk_size: None });
-                        w.write_all(&data)?;
+                        let mut l2 = LZMA2Options { lzma_options: lz2, chunk_size: None };
+                        // the writer rounds the chunk size up to the dictionary size
+                        l2.set_chunk_size(unit_pct.and_then(|p| std::num::NonZeroU64::new((data.len() as u64 * p / 100).max(1))));
+                        let mut w = LZMA2Writer::new(Sink, l2);
+                        if unit_pct.is_some() {
+                            // units are cut between write calls
+                            for piece in data.chunks(4096) {
+                                w.write_all(piece)?;
+                            }
+                        } else {
+                            w.write_all(&data)?;
+                        }
                         w.finish().map(|_| ())
                     } else {
                         let mut w = LZMAWriter::new(Sink, &lz2, false, true, None)?;
@@ -191,7 +221,24 @@ impl Property for C17 {
                 if peak > kib(est) {
                     return Err(Failure::new(
                         "encoder-estimate-unsound",
-                        format!("{} dict {} mf {} mode {} lc {} lp {}: peak {} bytes > estimate {} KiB", if lzma2 { "LZMA2Writer" } else { "LZMAWriter" }, o.dict_size, o.mf, o.mode, o.lc, o.lp, peak, est),
+                        format!(
+                            "{} dict {} mf {} mode {} lc {} lp {}: peak {} bytes > estimate {} KiB{}",
+                            if unit_pct.is_some() {
+                                "LZMA2Writer with chunk_size"
+                            } else if lzma2 {
+                                "LZMA2Writer"
+                            } else {
+                                "LZMAWriter"
+                            },
+                            o.dict_size,
+                            o.mf,
+                            o.mode,
+                            o.lc,
+                            o.lp,
+                            peak,
+                            est,
+                            if peak <= 2 * kib(est) { " (within twice the estimate)" } else { "" }
+                        ),
                     ));
                 }
                 if kib(est) > FACTOR * peak + SLACK {
